@@ -467,7 +467,7 @@ impl<T: Clone + Eq + Debug + Default> WrappedBlock<T> {
                 let mut wpos = 0; // Width of already-copied pieces
                 let mut bpos = 0; // Byte position of already-copied pieces
                                   //
-                while w - wpos > lineleft {
+                while w.saturating_sub(wpos) > lineleft {
                     verif_tick!(HardWrap);
                     let mut split_idx = 0;
                     for (idx, c) in piece.s[bpos..].char_indices() {
